@@ -11,11 +11,12 @@ Next == l < Len(Trace) /\ l' = l + 1
 Spec == Init /\ [][Next]_l
 
 (* a body whose every field text is of the declared type *)
-WellTyped(c) == \/ c.family = "text"
-                \/ c.family = "json"                  \* a JSON text always decodes to the value it spells
+WellTyped(c) == \/ c.family \in {"text", "octet", "zip", "csv"}
+                \/ c.family \in {"json", "yaml"}      \* a JSON / YAML text always decodes to the value it spells
+                \/ c.family = "multipart" /\ "partCT" \in DOMAIN c /\ c.partCT = "json"     \* ... and so does every part that is a JSON text
                 \/ "wrap" \in DOMAIN c /\ Valid([BaseSchemaOf(c) EXCEPT !.required = <<>>], c.v, "plain")   \* (form / multipart: the value is not wrapped)
                 \/ c.schema \in {"S1", "S2", "S3"} /\ Valid([S2 EXCEPT !.required = <<>>], c.v, "plain")
-                \/ c.schema \in {"S4", "S4a", "S5", "S6", "SN"} /\ Valid(SchemaOf(c), c.v, "plain")
+                \/ c.schema \in {"S4", "S4a", "S5", "S6", "SN", "S9"} /\ Valid(SchemaOf(c), c.v, "plain")
 
 Failed(line) ==
    LET c == line.c IN
